@@ -239,5 +239,5 @@ TARGETS = [
     {"name": "c01_o3_q_replay_dispatch_1tx_2ops", "crate": "nervusdb-storage", "run": run_replay(1, 2)},
     {"name": "c01_o3_q_replay_dispatch_2tx_1op", "crate": "nervusdb-storage", "run": run_replay(2, 1)},
     {"name": "c02_o2_q_replay_skips_checkpointed_2tx_1op", "crate": "nervusdb-storage", "run": run_replay(2, 1)},
-    {"name": "c01_o3_t_replay_dispatch_2tx_2ops", "crate": "nervusdb-storage", "run": run_replay(2, 2)},
+    {"name": "c01_o3_t_replay_dispatch_3tx_1op", "crate": "nervusdb-storage", "run": run_replay(3, 1)},
 ]
